@@ -29,16 +29,16 @@ MAccept(b) == /\ ~stopping /\ Fits(b)
               /\ Enqueued(b, "ok", sem')
 MRefuse(b) == Enqueued(b, "busy", sem) /\ UNCHANGED sem
 Accepted(c) == c \in DOMAIN copies /\ batches[copies[c].b].status = "ok"
-MArrive(c) == /\ Accepted(c) /\ ~stopping /\ copies[c].rel = 0 /\ ~batches[copies[c].b].done
+MArrive(c) == /\ Accepted(c) /\ copies[c].rel = 0 /\ ~batches[copies[c].b].ran
               /\ Exists(copies[c].ev) /\ UNCHANGED sem
-MProcess(c, ok) == /\ Accepted(c) /\ ~stopping /\ copies[c].ev \in arrived /\ ~batches[copies[c].b].done
+MProcess(c, ok) == /\ Accepted(c) /\ copies[c].ev \in arrived /\ ~batches[copies[c].b].ran
                    /\ Process(c, ok) /\ UNCHANGED sem
 \* released: rejected by a check, dropped as far-future, duplicate, processed, spilled, or cleared by Stop
 MRelease(c) == /\ Accepted(c) /\ copies[c].rel = 0
-               /\ (~stopping => ~batches[copies[c].b].done \/ copies[c].ev \in arrived)
+               /\ (~stopping => ~batches[copies[c].b].ran \/ copies[c].ev \in arrived)
                /\ sem' = Minus(c) /\ Released(c, sem')
 \* a batch is finished when each of its events was released or is parked in the buffer (arrived, unprocessed)
-MDone(b) == /\ b \in DOMAIN batches /\ batches[b].status = "ok" /\ ~stopping
+MDone(b) == /\ b \in DOMAIN batches /\ batches[b].status = "ok"      \* the inserter may still be running while Stop waits for it
             /\ \A c \in CopiesOfBatch(b) : copies[c].rel = 1 \/ (copies[c].ev \in arrived /\ copies[c].proc = 0)
             /\ Done(b, sem) /\ UNCHANGED sem
 MIdle == Idle(sem) /\ UNCHANGED sem
